@@ -24,7 +24,10 @@ def build_driver(repo_src):
     if not os.path.exists(os.path.join(d, 'Cargo.lock')) and os.path.exists('/repo/Cargo.lock'):
         shutil.copy('/repo/Cargo.lock', os.path.join(d, 'Cargo.lock'))
     env = dict(os.environ, CARGO_NET_OFFLINE='true')
-    r = subprocess.run(['cargo', 'build', '--offline', '-q'], cwd=d, env=env, capture_output=True, text=True)
+    import fcntl
+    with open(os.path.join(d, '.build.lock'), 'w') as lk:         # concurrent checks share one driver build per repository root
+        fcntl.flock(lk, fcntl.LOCK_EX)
+        r = subprocess.run(['cargo', 'build', '--offline', '-q'], cwd=d, env=env, capture_output=True, text=True)
     if r.returncode != 0:
         raise DriverError('the crate under check does not build: ' + r.stderr[-1500:])
     return os.path.join(d, 'target', 'debug', 'vxdriver')
